@@ -98,6 +98,16 @@ LMNNPush(L, X, y, targets) ==
 LMNNActive(L, X, y, targets) ==
   Cardinality({<<i, t, l>> \in (1..Len(X)) \X (1..Len(targets[1])) \X (1..Len(X)) :
                  y[l] # y[i] /\ IsActive(L, X, i, targets[i][t], l)})
+(* a hinge within 2^-30 (relative to its terms) of zero: the documented objective is not differentiable there and the sign the *)
+(* code sees is decided by rounding (integer-grid data under a rotation gives EXACT ties 1 + d_ij = d_il)                       *)
+HingeNearTie(L, X, i, j, l) ==
+  LET a == Add(One, SqD(L, X, i, j))  b == SqD(L, X, i, l) IN Leq(Abs(Sub(a, b)), Shift(Add(a, b), -2))
+LMNNNearTies(L, X, y, targets) ==
+  Cardinality({<<i, t, l>> \in (1..Len(X)) \X (1..Len(targets[1])) \X (1..Len(X)) :
+                 y[l] # y[i] /\ HingeNearTie(L, X, i, targets[i][t], l)})
+LMNNActiveClear(L, X, y, targets) ==
+  Cardinality({<<i, t, l>> \in (1..Len(X)) \X (1..Len(targets[1])) \X (1..Len(X)) :
+                 y[l] # y[i] /\ IsActive(L, X, i, targets[i][t], l) /\ ~HingeNearTie(L, X, i, targets[i][t], l)})
 LMNNValue(L, X, y, targets, reg) == Add(Mul(reg, LMNNPull(L, X, targets)), Mul(Sub(One, reg), LMNNPush(L, X, y, targets)))
 (* d o / d L = 2 L [ reg SUM_{i, j in T(i)} C_ij + (1 - reg) SUM_{active (i,j,l)} (C_ij - C_il) ] *)
 LMNNGrad(L, X, y, targets, reg) ==
